@@ -119,6 +119,23 @@ PROPS = {
              "two-series functions a null on one side only) must leave 19 aggregations / order statistics exactly unchanged, arg-extrema "
              "after mapping indices. distinct = (function, relation, len, window / parameters)",
     ),
+    "C09": dict(
+        bin="c09", features=["polars"],
+        quick=[("dbg", 1.0), ("rel", 1.0), ("miri", 1.0), ("mirirel", 1.0)],
+        thorough=[("dbg", 1.0), ("rel", 1.0), ("miri", 1.0), ("mirirel", 1.0), ("asan", 1.0), ("vg", 0.2)],
+        floors={"subjects.shift": 50, "subjects.vshift": 50, "subjects.vdiff": 50, "subjects.vpartition": 50, "subjects.varg_partition": 50,
+                "subjects.vcut": 20, "subjects.winsorize": 5, "subjects.rolling_custom_iter": 10, "subjects.pipeline": 100,
+                "partial_probes_ok": 500, "collectors_ok": 500, "titer_ok": 20, "generators_ok": 20},
+        technique="runtime monitoring: conservation monitor (announced = yielded at every probe point) + hook H1 in the raw collectors; Miri (dev and release-like), ASan, memcheck on the un-hooked collectors",
+        rule="every trusted-length iterator the library hands out: titer() of each backend (front/back partial consumption), shift / vshift / "
+             "vdiff / vpct_change over lags -len-3..=len+3 and i32::MIN/MAX, ffill / bfill / fill / abs / vabs / vclip (5 bound shapes), "
+             "vpartition / varg_partition k in 0..=len+2 x sort x rev, winsorize (3 methods), rolling_custom_iter w in 1..=len+2, vcut over "
+             "bins 0..3 x labels 0..4 x flags, range / linspace through the collecting constructors, and random pipelines of depth 1..6 "
+             "(library adaptors + std map/take/chain/zip/enumerate/step_by) over Box<dyn TrustedLen>. size_hint().1 is compared with the "
+             "number of items obtained by safe iteration before consumption and after every partial consumption; then "
+             "collect_trusted_vec1 into Vec / VecDeque / Array1 / polars must reproduce the safely iterated content. distinct = (subject, "
+             "yielded length, parameters)",
+    ),
 }
 
 for _k in list(PROPS):
